@@ -51,6 +51,11 @@ def Vec.smul (a : Vec α) (c : α) : Vec α := ⟨a.x * c, a.y * c, a.z * c⟩
 def Vec.mag (a : Vec α) : α := Fn.sqrt (a.x * a.x + a.y * a.y + a.z * a.z)
 def Vec.zero : Vec α := ⟨0.0, 0.0, 0.0⟩
 
+/-- `while c s: s = b s` with fuel (used by the function bodies regenerated from the Python source, `BC.Gen.Src`) -/
+def whileF {σ : Type} (c : σ → Bool) (b : σ → σ) : Nat → σ → σ
+  | 0, s => s
+  | n + 1, s => if c s then whileF c b n (b s) else s
+
 /-- `x != 0` for finite numbers -/
 def nz (x : α) : Bool := decide (x < 0.0) || decide (0.0 < x)
 
